@@ -15,6 +15,7 @@ From Coq Require Import ZArith List Lia Bool.
 From LZ4V Require Import Gen.Consts Spec.BlockSpec Model.Mem Model.Dec Model.DecApi.
 From LZ4V Require Import Model.DecStream.
 From LZ4V Require Import Proofs.DecRefineBase Proofs.DecRefineSafe Proofs.DecRefineTop Proofs.DecRefineApi Proofs.DecStreamRefine.
+From LZ4V Require Import Proofs.DecConverse Proofs.DecConverseTop.
 Import ListNotations.
 Local Open Scope Z_scope.
 
@@ -57,6 +58,20 @@ Theorem C05_continue_step :
     (0 < Z.of_nat (length D) -> st' = next_state st dest r).
 Proof. exact continue_step. Qed.
 Print Assumptions C05_continue_step.
+
+(* Converse: ANY bytes.  Whenever the (full-block) decoder reports success, either some parsed
+   sequence of the input has match offset 0 ([zero_off]: the class of finding F5), or the input
+   parses as a block, its sequences execute on the history ([spec_decode], the specification's
+   semantics WITHOUT the end-of-block restrictions) and the destination holds exactly that content.
+   [C05_success_sound_full_statement] (Proofs/DecConverseTop.v) quantifies over the fast loop too;
+   proved here: the safe loop (LZ4_FAST_DEC_LOOP off), every history placement. *)
+Theorem C05_success_sound_partial :
+  forall (pl : placement) (B hist : list Z) (srcm dictm : mem) (cap : Z) (m0 : mem),
+    (forall a, 0 <= get srcm a < 256) -> bytes B -> src_at srcm 0 B -> hist_placed pl hist dictm m0 ->
+    sound_result (decompress_usingDict false false srcm (Z.of_nat (length B)) 0 cap pl dictm (Z.of_nat (length hist)) m0)
+                 (lastn (Z.to_nat 65536) hist) B.
+Proof. exact success_sound_safe_loop. Qed.
+Print Assumptions C05_success_sound_partial.
 
 (* finding F5: the block 10 41 00 00 50 62 63 64 65 66 (one literal, then a match with
    offset 0) is rejected by the specification but decoded "successfully" (return 10) by the
